@@ -42,6 +42,24 @@ class SymFloat:
         return bool(self != 0)
 
 
+class OpaqueFloat:
+    """A float whose value is not modelled; any arithmetic or comparison is Unsupported."""
+    _symx_symbolic = True
+    __hash__ = None
+
+    def __init__(self, what):
+        self.what = what
+
+    def _no(self, *a, **k):
+        raise Unsupported("use of unmodelled float value (%s)" % self.what)
+
+    __add__ = __radd__ = __sub__ = __rsub__ = __mul__ = __rmul__ = __truediv__ = __rtruediv__ = _no
+    __lt__ = __le__ = __gt__ = __ge__ = __eq__ = __ne__ = __neg__ = __abs__ = __float__ = __bool__ = _no
+
+    def _symx_key(self):
+        return ("opaque", id(self))
+
+
 # --------------------------------------------------------------------------------------
 class SymFInt(SymFloat):
     __slots__ = ("i",)
@@ -105,10 +123,11 @@ class SymFInt(SymFloat):
     __rmul__ = __mul__
 
     def __truediv__(self, o):
-        raise Unsupported("division of an integer-valued symbolic float")
+        # the quotient is not integer-valued: opaque, may only be passed to a stub
+        return OpaqueFloat("SymFInt / %r" % (o,))
 
     def __rtruediv__(self, o):
-        raise Unsupported("division by an integer-valued symbolic float")
+        return OpaqueFloat("%r / SymFInt" % (o,))
 
     def __neg__(self):
         return self._wrap(-self.i)
